@@ -102,3 +102,9 @@ add("C20",
     "~40 modules x ~120 pair commands (quick) to ~500 modules (thorough): Equals <=> same presence and equal present physical fields recursively, symmetric, blind to padding; TryToCopyFrom succeeds exactly when source Ok and destination long enough, copies exactly the source's size with memmove semantics.",
     "Trusts: embref (already validated against the tree by C01); only parameterless top-level structs are paired.",
     "DESIGN.md §4 C20")
+
+add("C06",
+    "round-trip property-based testing: layout-generator structs with Skip/Emit marks compiled with g++; for Ok buffers and sampled option sets WriteToString -> UpdateFromText into a zeroed buffer -> WriteToString must reproduce the text; validity predicates on the text (Skip absent, Emit present, dependency order) from the model; integer text codec differentially against a Python rendering incl. malformed inputs",
+    "~30 modules x ~4 Ok buffers x 5 of 18 option sets (quick), ~12x more in thorough, plus ~2600 codec cases over all 8 integer types x 3 bases x grouping; finds unreadable output, dropped/extra fields, ordering errors, wrong digits/grouping/sign handling and wrap-around on malformed numbers.",
+    "Trusts: embref for choosing Ok buffers; text equality of the second WriteToString as the read-back oracle; floats and single-line+comments output are out of scope as documented.",
+    "DESIGN.md §4 C06")
